@@ -37,8 +37,17 @@ pub trait DataInput {
 
     /// Read a vector of bytes with the specified length
     fn read_vec(&mut self, len: usize) -> Result<Vec<u8>> {
-        let mut buf = vec![0u8; len];
-        self.read_bytes(&mut buf)?;
+        // `len` is usually a length prefix read from the (untrusted) input, so it must not
+        // size the allocation up front. Read in bounded chunks: the buffer only grows as fast
+        // as the source delivers bytes and a corrupt length ends in an end-of-data error.
+        const CHUNK: usize = 64 * 1024;
+        let mut buf = Vec::with_capacity(len.min(CHUNK));
+        while buf.len() < len {
+            let start = buf.len();
+            let end = start + (len - start).min(CHUNK);
+            buf.resize(end, 0);
+            self.read_bytes(&mut buf[start..end])?;
+        }
         Ok(buf)
     }
 
